@@ -659,3 +659,119 @@ def instances(tier):
                     out.append(Inst(min_on_off, dict(cls=c, n=3, prios='m2', first=[p, v]), budget=900,
                                     label="%s,n=3,m2,first=%s%s" % (_short([c]), p, v)))
     return out
+
+
+# ------------------------------------------------------------------ commands as WriteProperty requests over the wire
+from ..world import World as _World                                            # noqa: E402
+from .. import netlab as _nl                                                   # noqa: E402
+from bacpypes.service.object import ReadWritePropertyServices as _RWServices   # noqa: E402
+from bacpypes.apdu import (WritePropertyRequest as _WPR, ReadPropertyRequest as _RPR,      # noqa: E402
+                           ReadPropertyACK as _RPACK, SimpleAckPDU as _SimpleAck)
+from bacpypes.constructeddata import Any as _Any                               # noqa: E402
+from bacpypes.primitivedata import Null as _Null                               # noqa: E402
+
+
+class _WireDevice(_nl.AppStack, _RWServices):
+    pass
+
+
+from bacpypes.basetypes import BinaryPV as _BinaryPV                           # noqa: E402
+
+WIRE_FAMILIES = {
+    'AnalogValueCmdObject': (Real, [1.5, 0.0, 72.5]),
+    'MultiStateValueCmdObject': (Unsigned, [1, 2, 0]),
+    'BinaryValueCmdObject': (_BinaryPV, ['active', 'inactive']),
+    'CharacterStringValueCmdObject': (CharacterString, ['', 'a']),
+}
+
+
+@meta(bounds="a device stack holding one commandable object and a client stack; n WriteProperty requests for presentValue over "
+             "the wire, each with priority from {absent, 1, 8, 16, 0, 17} (0 and 17 must be refused) and a value from the class's "
+             "set or Null (relinquish) - in quick the earlier commands of a sequence are values at an absent or middle priority; "
+             "after every request presentValue and the whole priority array are read back with ReadProperty requests",
+      outside="more than n commands per sequence; classes other than the four instantiated (the object level covers all 20)",
+      stubs=["virtual clock (task._time)", "asyncore.loop -> clock advance", "task._Trigger -> wake flag", "fresh singletons per path"])
+def prio_wire(d, cls, n, full=False):
+    w = _World()
+    lan = _nl.FaultLAN([], world=w)
+    server = _WireDevice(_nl.make_device("s", 20), lan)
+    client = _nl.AppStack(_nl.make_device("c", 10), lan)
+    fam = FAMILIES[FAMILY_OF[cls]]
+    obj = make(cls, fam, own_array=True)
+    server.add_object(obj)
+    objid = obj.objectIdentifier
+    atom, values = WIRE_FAMILIES[cls]
+    ref = RefCommandable(fam['default']())
+
+    def ask(apdu):
+        n0 = len(client.confirmations)
+        apdu.pduDestination = server.address
+        client.request(apdu)
+        w.run()
+        if len(client.confirmations) != n0 + 1:
+            raise Violation("wire-no-single-reply", n=len(client.confirmations) - n0)
+        return client.confirmations[-1]
+
+    def read(prop, index=None):
+        r = ask(_RPR(objectIdentifier=objid, propertyIdentifier=prop, propertyArrayIndex=index))
+        if not isinstance(r, _RPACK):
+            raise Violation("wire-read-refused", prop=prop, index=index, got=type(r).__name__)
+        return r.propertyValue
+
+    for step in range(n):
+        if step < n - 1 and not full:
+            # the earlier commands only set the scene: a value at an absent or middle priority
+            prio = d.pick([None, 8], 'priority%d' % step)
+            relinquish = False
+        else:
+            prio = d.pick([None, 1, 8, 16, 0, 17], 'priority%d' % step)
+            relinquish = d.bool('relinquish%d' % step)
+        value = NULL if relinquish else d.pick(values[:2], 'value%d' % step)
+        req = _WPR(objectIdentifier=objid, propertyIdentifier='presentValue')
+        req.propertyValue = _Any()
+        if relinquish:
+            req.propertyValue.cast_in(_Null())
+        else:
+            req.propertyValue.cast_in(atom(value))
+        if prio is not None:
+            req.priority = prio
+        reply = ask(req)
+        accepted = ref.accepts(prio)
+        if accepted:
+            if not isinstance(reply, _SimpleAck):
+                raise Violation("wire-command-refused", step=step, priority=prio, relinquish=relinquish,
+                                got=type(reply).__name__, reason=getattr(reply, 'apduAbortRejectReason', None))
+            ref.command(prio, NULL if relinquish else value)
+        elif isinstance(reply, _SimpleAck):
+            raise Violation("wire-out-of-range-priority-acked", step=step, priority=prio)
+        # read back over the wire
+        pv = read('presentValue')
+        got_pv = canon(pv.cast_out(atom), fam.get('enum'))
+        want_pv = canon(ref.present(), fam.get('enum'))
+        if got_pv != want_pv:
+            raise Violation("wire-present-value", step=step, got=got_pv, want=want_pv, priority=prio, relinquish=relinquish)
+        arr = read('priorityArray').cast_out(PriorityArray)
+        if len(arr) != 16:
+            raise Violation("wire-array-length", got=len(arr))
+        for i in range(16):
+            name, val = slot_view(arr[i + 1], fam)
+            want = ref.slots[i]
+            if want is NULL:
+                if name != 'null':
+                    raise Violation("wire-slot", step=step, slot=i + 1, got=(name, val), want='null')
+            elif name == 'null' or val != canon(want, fam.get('enum')):
+                raise Violation("wire-slot", step=step, slot=i + 1, got=(name, val), want=want)
+    d.reach()
+
+
+_c17_instances = instances
+
+
+def instances(tier):
+    out = _c17_instances(tier)
+    q = tier == "quick"
+    for cls in (['AnalogValueCmdObject', 'BinaryValueCmdObject'] if q else list(WIRE_FAMILIES)):
+        out.append(Inst(prio_wire, dict(cls=cls, n=2, full=not q), budget=150 if q else 900, path_timeout=120))
+    if not q:
+        out.append(Inst(prio_wire, dict(cls='AnalogValueCmdObject', n=3, full=False), budget=900, path_timeout=120))
+    return out
